@@ -13,6 +13,7 @@ import (
 	"os/exec"
 	"path/filepath"
 	"sort"
+	"strconv"
 	"strings"
 	"syscall"
 
@@ -32,10 +33,48 @@ type acq struct {
 	Dup  bool   `json:"dup"`  // a copy of the descriptor exists while Close runs (a forked child that has not exec'd yet)
 }
 
-func (a acq) writer() bool { return a.Form != "open" && a.Form != "rdonly" }
+// flags:<n> forms call OpenFile with exactly these flags
+func (a acq) flags() (int, bool) {
+	if strings.HasPrefix(a.Form, "flags:") {
+		n, err := strconv.Atoi(a.Form[len("flags:"):])
+		return n, err == nil
+	}
+	return 0, false
+}
+
+func (a acq) writer() bool {
+	if fl, ok := a.flags(); ok {
+		return fl&(os.O_WRONLY|os.O_RDWR) != 0
+	}
+	return a.Form != "open" && a.Form != "rdonly"
+}
+
+func flagName(fl int) string {
+	var p []string
+	switch fl & (os.O_WRONLY | os.O_RDWR) {
+	case os.O_WRONLY:
+		p = append(p, "O_WRONLY")
+	case os.O_RDWR:
+		p = append(p, "O_RDWR")
+	default:
+		p = append(p, "O_RDONLY")
+	}
+	for _, f := range []struct {
+		v int
+		n string
+	}{{os.O_APPEND, "O_APPEND"}, {os.O_CREATE, "O_CREATE"}, {os.O_TRUNC, "O_TRUNC"}, {os.O_SYNC, "O_SYNC"}, {os.O_EXCL, "O_EXCL"}} {
+		if fl&f.v != 0 {
+			p = append(p, f.n)
+		}
+	}
+	return strings.Join(p, "|")
+}
 
 func (a acq) String() string {
 	s := a.Form + "(" + a.Path + ")"
+	if fl, ok := a.flags(); ok {
+		s = "OpenFile(" + a.Path + "," + flagName(fl) + ")"
+	}
 	if a.Dup {
 		s += "+dup"
 	}
@@ -231,6 +270,12 @@ func acquireOnce(m monitor, dir string, shared *lockedfile.Mutex, th int, a acq)
 		f, err = lockedfile.OpenFile(path, os.O_RDWR, 0)
 	case "mutex":
 		unlock, err = lockedfile.MutexAt(path).Lock()
+	default:
+		if fl, ok := a.flags(); ok {
+			f, err = lockedfile.OpenFile(path, fl, 0o666)
+		} else {
+			err = fmt.Errorf("unknown acquisition form %q", a.Form)
+		}
 	case "mutexShared":
 		unlock, err = shared.Lock()
 	}
@@ -564,6 +609,30 @@ func scenarios(th bool) []scenario {
 		{"R||R||R", [][]acq{{a("open", "p")}, {a("rdonly", "p")}, {a("open", "p")}}, b3, false},
 		{"W||W||R", [][]acq{{a("create", "p")}, {a("wronly", "p")}, {a("open", "p")}}, b3, false},
 		{"M||M||M", [][]acq{{a("mutex", "p")}, {a("mutexShared", "p")}, {a("mutexShared", "p")}}, b3, false},
+	}
+	scs = append(scs, scenario{"M||M||M three values", [][]acq{{a("mutex", "p")}, {a("mutex", "p")}, {a("mutex", "p")}}, b3, false})
+	scs = append(scs, scenario{"M||M||W", [][]acq{{a("mutex", "p")}, {a("mutex", "p")}, {a("edit", "p")}}, b3, false})
+	// every combination of access mode and open flags a caller may legally pass:
+	// write modes exclude a reader and another writer, read modes share
+	fb := 2
+	for _, mode := range []int{os.O_WRONLY, os.O_RDWR} {
+		for mask := 0; mask < 16; mask++ {
+			fl := mode
+			for i, f := range []int{os.O_APPEND, os.O_CREATE, os.O_TRUNC, os.O_SYNC} {
+				if mask&(1<<uint(i)) != 0 {
+					fl |= f
+				}
+			}
+			w := a(fmt.Sprintf("flags:%d", fl), "p")
+			scs = append(scs,
+				scenario{"flags||R", [][]acq{{w}, {a("open", "p")}}, fb, false},
+				scenario{"flags||flags", [][]acq{{w}, {w}}, fb, false})
+		}
+	}
+	for _, fl := range []int{os.O_RDONLY | os.O_CREATE, os.O_RDONLY | os.O_SYNC, os.O_RDONLY | os.O_APPEND} {
+		rd := a(fmt.Sprintf("flags:%d", fl), "p")
+		scs = append(scs, scenario{"R(flags)||R", [][]acq{{rd}, {a("open", "p")}}, fb, false},
+			scenario{"R(flags)||W", [][]acq{{rd}, {a("edit", "p")}}, fb, false})
 	}
 	// P-mode: the same holders as separate OS processes (no shared *Mutex value there)
 	pb := 2
